@@ -22,7 +22,7 @@ RULE = ("generated packages with cross-module bases, star imports, __all__ re-ex
         "cycles and consumer modules named to sort before/after the modules they depend on; real test packages in the thorough tier; "
         "x every reachable processing order (thorough: exhaustive when <= 120, else 64 evenly spaced; quick: exhaustive when <= 24, else 32). Non-trivial when >=2 orders exist in which some imported "
         "module is processed after its importer; distinct by hash of the abstract project. Plus an exhaustive family of 144 small projects in which an import cycle leaves a base unresolved "
-        "and the subclass is re-exported into a module that binds the base's name to a function, a constant, a module or nothing.")
+        "and the subclass is re-exported into a module that binds the base's name to a function, a constant, a module or nothing; and of 72 projects with a module 2-4 packages deep that inherits __docformat__ from an outer package and is first reached through an import.")
 ASSUMPTIONS = [
     "objects re-exported by two modules are excluded from the re-export-location comparison (statement); the generator gives each object one re-exporter",
     "projects with import cycles: only bases / resolved bases / linearisation of classes are compared",
@@ -181,12 +181,40 @@ def cycshadow_cases() -> List[Dict[str, Any]]:
     return cases
 
 
+def deepformat_cases() -> List[Dict[str, Any]]:
+    """A module several packages deep whose docstrings are written in the format that an outer package declares (__docformat__), reached
+    first through an import from elsewhere: every enclosing package has to be analysed before it, whatever comes first.  Exhaustive
+    small family: depth x where the format is declared x who imports the module x how."""
+    Q = '"' * 3
+    leaf = ('class A:\n    ' + Q + 'ID:1\n\n    :ivar x: declared by a field\n    ' + Q + '\n    @property\n    def p(self):\n        ' + Q + '\n        :return: the p of A\n        ' + Q + '\n'
+            'def f(a):\n    ' + Q + 'ID:2\n\n    :param a: the a\n    ' + Q + '\n')
+    cases = []
+    for depth in (1, 2, 3):
+        chain = ['core'] + ['s%d' % i for i in range(depth)]
+        for decl in range(depth + 1):
+            for importer in ('root-before', 'root-after', 'sibling-before', 'sibling-after'):
+                for form in ('from %s import A', 'import %s'):
+                    files = {}
+                    for i in range(len(chain)):
+                        files['/'.join(chain[:i + 1]) + '/__init__.py'] = "__docformat__ = 'restructuredtext'\n" if i == decl else ''
+                    files['/'.join(chain) + '/leaf.py'] = leaf
+                    target = '.'.join(chain) + '.leaf'
+                    stmt = form % target
+                    if importer.startswith('root'):
+                        files[('aaa' if importer == 'root-before' else 'zzz') + '.py'] = stmt + '\n'
+                    else:
+                        files['core/' + ('aaa' if importer == 'sibling-before' else 'zzz') + '.py'] = stmt + '\n'
+                    cases.append({'kind': 'deepformat', 'name': '%d/%d/%s/%s' % (depth, decl, importer, form), 'files': files})
+    return cases
+
+
 def plan(tier: str, seed: int, scale: float = 1.0) -> List[Any]:
     n = ncpu()
     total = int((800 if tier == "quick" else 6000) * scale)
     items: List[Any] = [{'kind': 'gen', 'n': max(1, total // n), 'seed': seed * 1000 + i} for i in range(n)]
     items.append({'kind': 'real'})
     items.append({'kind': 'cycshadow'})
+    items.append({'kind': 'deepformat'})
     return items
 
 
@@ -203,10 +231,10 @@ def work(item: Dict[str, Any]) -> Acc:
             acc.notes['systems_built'] = acc.notes.get('systems_built', 0) + info['orders_run']
             judge(ID, acc, dict(proj, kind='gen'), d)
         hyp_run(acc, rexproj.projects(cycles=True, star_consumers=True), body, item['n'], item['seed'])
-    elif item['kind'] == 'cycshadow':
-        for c in cycshadow_cases():
-            d, info = check_files(c['files'], True, False, False)
-            acc.case(key=c['name'], nontrivial=info['orders_run'] >= 2, sample={'cycle_with_shadowed_base': c['name'], 'orders_run': info['orders_run']}, classes=['cycle-shadowed-base', 'cyclic'])
+    elif item['kind'] in ('cycshadow', 'deepformat'):
+        for c in (cycshadow_cases() if item['kind'] == 'cycshadow' else deepformat_cases()):
+            d, info = check_files(c['files'], c['kind'] == 'cycshadow', False, False)
+            acc.case(key=c['name'], nontrivial=info['orders_run'] >= 2, sample={c['kind']: c['name'], 'orders_run': info['orders_run']}, classes=['cycle-shadowed-base', 'cyclic'] if c['kind'] == 'cycshadow' else ['deep-module-inherits-docformat', 'acyclic'])
             acc.notes['systems_built'] = acc.notes.get('systems_built', 0) + info['orders_run']
             try:
                 judge(ID, acc, c, d)
@@ -229,6 +257,8 @@ def work(item: Dict[str, Any]) -> Acc:
 def replay(case: Dict[str, Any]) -> List[Tuple[str, str]]:
     if case.get('kind') == 'cycshadow':
         return check_files(case['files'], True, False, False)[0]
+    if case.get('kind') == 'deepformat':
+        return check_files(case['files'], False, False, False)[0]
     if case.get('kind') == 'real':
         return check_files(case['files'], 'cyclic' in case['name'], False, False)[0]
     files, cyclic, stale, soc, roc = project_case(case)
